@@ -147,3 +147,18 @@ pub fn root_with_speed_record(run: &Run, net: NetID) -> Option<(Node, Vec<(CoinI
     let h = sealed1.model.height;
     Some((sealed2, vec![(split.output_coinid(1), 300_000_000, h), (split.output_coinid(2), 300_000_000, h)]))
 }
+
+/// Drives a node through a scripted prefix: at each step the first action of the alphabet whose label starts with the given
+/// prefix is taken.  Returns None when a step is not available or not accepted.
+pub fn advance_by_labels(run: &Run, mut node: Node, cfg: &AlphaCfg, prefixes: &[&str]) -> Option<Node> {
+    let eng = Engine::new(run);
+    for want in prefixes {
+        let acts = actions(&node, cfg);
+        let a = acts.iter().find(|a| a.label().starts_with(want))?;
+        node = match eng.step(&node, a) {
+            StepOut::Next(n) => n,
+            _ => return None,
+        };
+    }
+    Some(node)
+}
